@@ -41,6 +41,7 @@ func main() {
 	overlay := map[string]string{}
 	var unsim, syncRet []string
 	total := instrument.Result{}
+	var allSites []string
 	if *srcTree == "" {
 		*srcTree = *repo
 	}
@@ -101,6 +102,7 @@ func main() {
 			total.Steps += res.Steps
 			total.Syncs += res.Syncs
 			total.Rewrites += res.Rewrites
+			allSites = append(allSites, res.Sites...)
 			if *verbose {
 				fmt.Fprintf(os.Stderr, "simbuild: %s steps=%d syncs=%d rewrites=%d\n", short, res.Steps, res.Syncs, res.Rewrites)
 			}
@@ -166,6 +168,10 @@ func main() {
 	ov := struct{ Replace map[string]string }{overlay}
 	b, _ := json.MarshalIndent(ov, "", " ")
 	if err := os.WriteFile(filepath.Join(*out, "overlay.json"), b, 0o644); err != nil {
+		die("%v", err)
+	}
+	sort.Strings(allSites)
+	if err := os.WriteFile(filepath.Join(*out, "sites.txt"), []byte(strings.Join(allSites, "\n")+"\n"), 0o644); err != nil {
 		die("%v", err)
 	}
 	fmt.Fprintf(os.Stderr, "simbuild: %d files in overlay, %d step points, %d sync points, %d rewrites\n", len(keys), total.Steps, total.Syncs, total.Rewrites)
